@@ -121,12 +121,34 @@ class PhaseAssumption:
         return cut
 
 
+def _fresh_tx(f, defs, base):
+    seen, work = set(), [base]
+    while work:
+        l = work.pop()
+        if l in seen:
+            continue
+        seen.add(l)
+        for d in defs.defs.get(l, []):
+            if d[2] == 'call' and d[3].resolved.endswith('DistributedTransaction::new'):
+                return True
+            if d[2] == 'st' and d[3][1][0] in ('ref', 'use'):
+                pl = d[3][1][1] if d[3][1][0] == 'ref' else (d[3][1][1][1] if d[3][1][1][0] != 'k' else None)
+                if pl is not None and not [x for x in pl[1] if x != '*']:
+                    work.append(pl[0])
+    return False
+
+
 def phase_writes(f):
     """(bb, line, variant|None) for every write to DistributedTransaction.phase."""
     out = []
     defs = None
     for w in A.field_writes(f):
         if w[2] != PHASE_FIELD or w[3][1][-1] != PHASE_FIELD:
+            continue
+        # initialising a transaction object that this function has just built (recovery rebuilding it from the log) is not a
+        # phase transition of a live transaction
+        defs = defs or A.Defs(f)
+        if _fresh_tx(f, defs, w[3][0]):
             continue
         v = None
         rv = w[4]
